@@ -90,6 +90,74 @@ pub fn replay(line: &str) -> (bool, String) {
             }
             (bad, out)
         }
+        "cost" => {
+            // C19 single evaluation: k=<kind> count=<n> addr=<hex> abwcr=.. astcr=.. wcrh=.. wcrl=.. drcra=..
+            let get = |key: &str| line.split_whitespace().find_map(|t| t.strip_prefix(key)).unwrap_or("").to_string();
+            let hx = |key: &str| u32::from_str_radix(&get(key), 16).unwrap_or(0);
+            use crate::refmodel::cost::{cost1, BusRegs, Kind, ABWCR, ASTCR, DRCRA, WCRH, WCRL};
+            let b = BusRegs { abwcr: hx("abwcr=") as u8, astcr: hx("astcr=") as u8, wcrh: hx("wcrh=") as u8, wcrl: hx("wcrl=") as u8, drcra: hx("drcra=") as u8 };
+            let (kind, st) = match get("k=").as_str() {
+                "I" => (Kind::I, crate::cpu::StateType::I),
+                "J" => (Kind::J, crate::cpu::StateType::J),
+                "K" => (Kind::K, crate::cpu::StateType::K),
+                "L" => (Kind::L, crate::cpu::StateType::L),
+                "M" => (Kind::M, crate::cpu::StateType::M),
+                _ => (Kind::N, crate::cpu::StateType::N),
+            };
+            let count: u8 = get("count=").parse().unwrap_or(1);
+            let addr = hx("addr=");
+            let mut cpu = crate::cpu::Cpu::new();
+            for (r, v) in [(ABWCR, b.abwcr), (ASTCR, b.astcr), (WCRH, b.wcrh), (WCRL, b.wcrl), (DRCRA, b.drcra)] {
+                let _ = cpu.bus.write(r, v);
+            }
+            let got = cpu.calc_state_with_addr(st, count, addr).ok().map(|v| v as u32);
+            let want = cost1(kind, addr, &b).map(|c| c * count as u32);
+            (got != want, format!("calc_state_with_addr({:?}, {}, {:06x}) = {:?}, reference {:?} under {:?}\n", kind, count, addr, got, want, b))
+        }
+        "cost-history" | "bus" => {
+            // these witnesses are positions inside a seeded sweep: re-run the shard that found them
+            let seed: u64 = line.split_whitespace().find_map(|t| t.strip_prefix("seed=")).and_then(|v| v.parse().ok()).unwrap_or(1);
+            let shard: u64 = line.split_whitespace().find_map(|t| t.strip_prefix("shard=")).and_then(|v| v.parse().ok()).unwrap_or(0);
+            let cfg = crate::util::Cfg { tier_thorough: false, seed, shard, nshards: if check == "C09" { 4 } else { 16 }, profile: "release".into(), scale: 1.0 };
+            match run(check, &cfg) {
+                Some(rep) => {
+                    let mut out = String::new();
+                    for f in rep.findings.values() {
+                        out.push_str(&format!("  FINDING {}: {}\n", f.sig, f.detail));
+                    }
+                    (!rep.findings.is_empty(), out)
+                }
+                None => (false, "unknown check".into()),
+            }
+        }
+        "periph" => {
+            let ops = line.split_whitespace().find_map(|t| t.strip_prefix("ops=")).unwrap_or("");
+            let mut cpu = crate::cpu::Cpu::new();
+            let mut bad = false;
+            let mut out = String::new();
+            for op in ops.split(',') {
+                let r = std::panic::catch_unwind(std::panic::AssertUnwindSafe(|| {
+                    if let Some(x) = op.strip_prefix('w') {
+                        if let Some((a, v)) = x.split_once('=') {
+                            let _ = cpu.bus.write(u32::from_str_radix(a, 16).unwrap_or(0), u8::from_str_radix(v, 16).unwrap_or(0));
+                        }
+                    } else if let Some(x) = op.strip_prefix("pin") {
+                        if let Some((p, v)) = x.split_once('=') {
+                            cpu.bus.write_port(u8::from_str_radix(p, 16).unwrap_or(0), u8::from_str_radix(v, 16).unwrap_or(0));
+                        }
+                    } else if let Some(x) = op.strip_prefix('e') {
+                        let _ = cpu.verif_update_modules(x.parse().unwrap_or(1));
+                    }
+                }));
+                if r.is_err() {
+                    let p = crate::util::take_panic().unwrap_or_default();
+                    out.push_str(&format!("  panic at {}:{}: {} on operation {}\n", p.file, p.line, p.msg, op));
+                    bad = true;
+                    break;
+                }
+            }
+            (bad, out)
+        }
         "chain" => {
             let seed: u64 = line.split_whitespace().find_map(|t| t.strip_prefix("seed=")).and_then(|v| v.parse().ok()).unwrap_or(0);
             let mut rep = crate::util::Report::new(check);
